@@ -50,6 +50,21 @@ Theorem C30_protocol_patch : forall (yours diff theirs : list (bytes * bytes)),
 Proof. exact patch_files_ok. Qed.
 Print Assumptions C30_protocol_patch.
 
+(* with make_patch as an oracle obeying the law validated on every run (identical texts -> empty patch,
+   otherwise the text of a valid edit script): diffing two protocols and patching the first with the
+   result reproduces the second *)
+Theorem C30_protocol_diff_patch : forall (mk : bytes -> bytes -> bytes -> bytes) (yours theirs : list (bytes * bytes)),
+  make_patch_law mk -> patch_files yours (diff_files mk yours theirs) = Ok theirs.
+Proof. exact diff_then_patch. Qed.
+Print Assumptions C30_protocol_diff_patch.
+
+(* apply, then revert the result: back to the old text *)
+Theorem C30_apply_then_revert : forall (a b : bytes) (hdr : list bytes) (s : script),
+  forallb hdr_line hdr = true -> valid_script a b s ->
+  bind (apply_patch a (render hdr s) false) (fun t => apply_patch t (render hdr s) true) = Ok a.
+Proof. exact apply_then_revert. Qed.
+Print Assumptions C30_apply_then_revert.
+
 (* non-vacuity: a script with context, a deletion, an addition without final newline *)
 Example C30_example :
   let a := [x61; x0a; x62; x0a; x63; x0a] in           (* "a\nb\nc\n" *)
